@@ -108,10 +108,12 @@ Definition gen_parse_next_value (fl : flags) (line : str) (start_index : nat) : 
 """
 
 
-def gen_parser(api):
+def gen_parser(api, force_stub=False):
     rel = "duckscript/src/parser.rs"
     head = "Require Import DS.Parser DS.ParserIx DS.Rs2vLib.\nLocal Open Scope bool_scope.\n"
     try:
+        if force_stub:
+            raise Rs2vError("translation rejected: %s" % force_stub)
         src = api.read(rel)
         params, body = rs2v.parse_fn(src, "parse_next_value")
         fn = ParserFn(parser_cfg())
@@ -248,10 +250,12 @@ Definition gen_expand_by_wrapper (value : str) (variables : env) : expanded := E
 """
 
 
-def gen_expand(api):
+def gen_expand(api, force_stub=False):
     rel = "duckscript/src/expansion.rs"
     head = "Require Import DS.Parser DS.Expansion DS.Rs2vLib.\nLocal Open Scope bool_scope.\n"
     try:
+        if force_stub:
+            raise Rs2vError("translation rejected: %s" % force_stub)
         src = api.read(rel)
         p1, b1 = rs2v.parse_fn(src, "should_break_key")
         f1 = HelperFn({"coq_name": "gen_should_break_key", "params": {"value": (Ty.CHAR, "value")}, "locals": {}})
@@ -276,6 +280,8 @@ def gen_expand(api):
     api.emit("GenExpandFn.v", text, rel + " (fn should_break_key, push_prefix, expand_by_wrapper) by lib/rs2v.py")
 
 
-def generate(api):
-    gen_parser(api)
-    gen_expand(api)
+def generate(api, force_stub=False):
+    # force_stub: {generated file name: reason} for the files whose translation did not type-check
+    fs = force_stub if isinstance(force_stub, dict) else {}
+    gen_parser(api, fs.get("GenParserFn.v", False))
+    gen_expand(api, fs.get("GenExpandFn.v", False))
